@@ -71,3 +71,40 @@ def random_key(r):
         return r.choice(KEYWORD_KEYS)
     n = r.randint(1, 8)
     return "".join(r.choice(KEY_ALPHABET) for _ in range(n))
+
+
+def oracle_hypotheses():
+    """the premises of the *_real label theorems about the external tables, checked over every code point.
+    -> list of violations (empty when all hold)"""
+    from unidecode import unidecode
+    W = re.compile(r"\w")
+    bad = []
+    if W.match("-"):
+        bad.append("is_word_c 45 = false fails")
+    if not W.match("_"):
+        bad.append("is_word_c 95 = true fails")
+    if not all(W.match(chr(c)) for c in range(97, 123)):
+        bad.append("ascii lower-case letters are word characters fails")
+    for c in range(0x110000):
+        if 0xD800 <= c <= 0xDFFF:
+            continue
+        ch = chr(c)
+        lo = ch.lower()
+        if c == 95 and lo != "_":
+            bad.append("lower_c 95 = [95] fails")
+        if c != 95 and "_" in lo:
+            bad.append(f"lower_c {c} contains 95")
+        if lo == "":
+            bad.append(f"lower_c {c} = []")
+        if "0" <= ch <= "9" and "a" <= lo <= "z":
+            bad.append(f"lower of digit {c} is a letter")
+        if not ("0" <= ch <= "9") and lo and "0" <= lo[0] <= "9":
+            bad.append(f"lower_c {c} starts with an ASCII digit")
+        u = unidecode(ch)
+        if c < 128 and u != ch:
+            bad.append(f"unidecode_c {c} <> [{c}]")
+        if any(ord(x) >= 128 for x in u):
+            bad.append(f"unidecode_c {c} is not ASCII")
+        if len(bad) > 5:
+            break
+    return bad
